@@ -20,7 +20,7 @@ CHECKS = {
          "float64 C-contiguous arguments only (layouts are C17's); cases where the reference itself returns non-finite values or sits on the 1e-6 cut-off tie are counted and skipped; quick tier thinned with strides coprime to all palette sizes (listed in the rule).", "DESIGN 4/C02"),
  "C09": ("LX", "exploration",
          "bounded-exhaustive enumeration over a platform-geometry family x bases x re-spins x the complete 3^6 relative-pose grid, against point-to-point distances computed from plate-fixed coordinates read once at the neutral pose; FK round trip on a fixed sub-lattice with a committed known-finding case list",
-         "IK lengths equal joint-to-joint distances (1e-9), rigid-motion invariance, re-spin clause (at neutral and non-neutral poses, twice in a row), FK of the lengths (both solver paths) recovers pose and lengths to 1e-3 of the neutral height for every in-workspace pose; histories 'FK, spinCustom, FK', 'IK, IK' (the earlier result must survive) and 'IK, move both pose objects in place, IK'; FK with the bottom plate given explicitly elsewhere (generic rigid motion / ceiling mount), differentially against FK from the platform's own base; quick: 7 geometries at bases {identity, generic, seed-generic, 63-degree tilt}, thorough: all 432 + seed geometry.",
+         "IK lengths equal joint-to-joint distances (1e-9), rigid-motion invariance, re-spin clause (at neutral and non-neutral poses, twice in a row), FK of the lengths (both solver paths) recovers pose and lengths to 1e-3 of the neutral height for every in-workspace pose; histories 'FK, spinCustom, FK', 'IK, IK' (the earlier result must survive) and 'IK, move both pose objects in place, IK'; FK with the bottom plate given explicitly elsewhere (generic rigid motion / ceiling mount), differentially against FK from the platform's own base; quick: 8 geometries (one with thick plates, long steep legs and the short stroke) at bases {identity, generic, seed-generic, 63-degree tilt}, thorough: all 432 + seed geometry.",
          "FK failures are matched against known_findings/c09_fk_cases.txt (KF2: explicit case ids with a marginal band, one structural class for fsolve started from a zero rotation vector); any unlisted failure is a violation. Time caps are reported with exhaustive:false.", "DESIGN 4/C09"),
  "C11": ("LX", "exploration",
          "bounded-exhaustive enumeration over geometries x bases x the 3^6 pose grid x the complete twist/wrench bases, against Richardson differences of the IK lengths and independent statics",
@@ -32,7 +32,7 @@ CHECKS = {
          "Budgets <= 4 exhaustively (<= 12 near the default answer); executions that exhaust the draw horizon are counted, not judged; the supplied collision detector itself is C15's subject. A time cap (reported, exhaustive:false) bounds the run on a loaded machine.", "DESIGN 4/C16, 3.3"),
  "C08": ("LX", "exploration",
          "bounded-exhaustive enumeration: all revolute chains of 1..3 joints over a 6-joint palette x link-frame and inertia schemes x joint-state lattice, windows of 4..7 joints, and arms through the Arm-level API, against an independent product-of-exponentials dynamics oracle",
-         "All 6^n joint sequences for n <= 3 x 4 link-frame schemes x 3 inertia schemes x {0,0.3,-1.2,pi/2}^n states, cyclic windows for n = 4..7, three/four arms: M symmetric positive definite and equal to sum J^T G J, gravity = gradient of potential, passivity and the Lagrange form of the velocity-product term (Richardson differences), term-by-term torque decomposition, forward/inverse round trips, energy drift under RK4 with step refinement, agreement of every Arm-level implementation with the port, a sequence that overwrites one set of argument buffers in place across states, the history 'query everything, replace the inertias through the public setter, query again', (second stage: link frames replaced through setOrigins), a byte comparison of every argument after every call, tiny steps (1e-6, 2e-7) in the reuse sequence, and rates / wrenches whose components cancel in a plain sum.",
+         "All 6^n joint sequences for n <= 3 x 4 link-frame schemes x 3 inertia schemes x {0,0.3,-1.2,pi/2}^n states, cyclic windows for n = 4..7, three/four arms: M symmetric positive definite and equal to sum J^T G J, gravity = gradient of potential, passivity and the Lagrange form of the velocity-product term (Richardson differences), term-by-term torque decomposition, forward/inverse round trips, energy drift under RK4 with step refinement, agreement of every Arm-level implementation with the port, a sequence that overwrites one set of argument buffers in place across states, the history 'query everything, replace the inertias through the public setter, query again', (second stage: link frames replaced through setOrigins), a byte comparison of every argument after every call, tiny steps (1e-6, 2e-7) in the reuse sequence, rates / wrenches whose components cancel in a plain sum, a state with joint values of a few 1e-5 rad, and whole-radian joint vectors given as int64 arrays and lists of ints.",
          "Finite lattices (quick tier thinned deterministically as stated in the rule); revolute joints; mass pattern per inertia scheme fixed. Oracle identities validated against the vendored reference in the self-tests.", "DESIGN 4/C08"),
  "C13": ("LX", "exploration",
          "bounded-exhaustive enumeration over generated programs: the complete product of per-joint URDF variants for 1 and 2 moving joints, scheduled families for 3..8 joints with every fixed-joint placement pattern, loaded by the real loader and compared with an independent XML->kinematics interpreter",
@@ -48,27 +48,27 @@ CHECKS = {
          "Bounded depth and hub size (<= 3 endpoints, 2 sinks, 1 source); sockets are scripted doubles; delivery order within a bag is not judged. Without tlc on PATH the check falls back to the direct exploration and says so.", "DESIGN 4/C19, 3.4"),
  "C07": ("LX", "exploration",
          "bounded-exhaustive enumeration of goal x start x tolerance-setting x solver-path lattices on arms in four structural states, plus complete enumeration of restart-vector sequences (scripted random source); errors recomputed independently",
-         "Per arm and state: goals from in-limit joint vectors (generic, 0.15 rad from a limit, on a limit), starts (exact, +-0.02 rad on every joint, far, zeros, current, a full turn outside the limits), three tolerance settings with position != orientation tolerance, both solver paths; tolerance-boundary goals (the only inputs that expose a tolerance swap); the same boundary goals through one scripted restart limited to its entry test; unreachable goals; all 9 restart-vector sequences of length 2 over a 3-vector menu; one generated chain whose joint ranges exclude 0; the boundary restart on both solver paths; a failed solve followed by an ordinary one on the same arm. Success => recomputed errors within the matching tolerances, inside limits, state = solution; failure => coherent state; local convergence on the stated sub-domain.",
+         "Per arm and state: goals from in-limit joint vectors (generic, 0.15 rad from a limit, on a limit), starts (exact, +-0.02 rad on every joint, far, zeros, current, a full turn outside the limits), three tolerance settings with position != orientation tolerance, both solver paths; tolerance-boundary goals (the only inputs that expose a tolerance swap); the same boundary goals through one scripted restart limited to its entry test; unreachable goals; all 9 restart-vector sequences of length 2 over a 3-vector menu; one generated chain whose joint ranges exclude 0; the boundary restart on both solver paths; a failed solve followed by an ordinary one on the same arm; a jog of five position tolerances with the start vector defaulted. Success => recomputed errors within the matching tolerances, inside limits, state = solution; failure => coherent state; local convergence on the stated sub-domain.",
          "Finite lattices; the solver's joint vectors are environment answers; restarts fully scripted. Free solver on chains with prismatic joints excluded for unreachable goals (joint values leave the property's [-2pi,2pi] range).", "DESIGN 4/C07"),
  "C12": ("LX", "exploration",
          "bounded-exhaustive enumeration: all ordered frame triples x complete 6-vector basis x {Screw, Wrench} x every operand form on both sides of every operator, against independent adjoint formulas",
-         "729 (quick) / 2744 (thorough) frame triples (palette includes near-duplicate frames) x basis+generic vectors for the change-of-frame group action, pairing invariance, point-force moments, cross-frame sums/differences, and the vector-space laws over 19 operand forms (Python/NumPy scalars, flat and column arrays of float and int dtype, objects) reaching every isinstance branch and fall-through of the overloads; part 'shared': two objects on one frame object, the target frame object moved in place between the two changes; the payload edited (element assignment / in-place write) between two changes of frame.",
+         "729 (quick) / 2744 (thorough) frame triples (palette includes near-duplicate frames) x basis+generic vectors for the change-of-frame group action, pairing invariance, point-force moments, cross-frame sums/differences, and the vector-space laws over 19 operand forms (Python/NumPy scalars, flat and column arrays of float and int dtype, objects) reaching every isinstance branch and fall-through of the overloads; part 'shared': two objects on one frame object, the target frame object moved in place between the two changes; the payload edited (element assignment / in-place write) between two changes of frame; the constructor's array unchanged by a change of frame, integer-valued payloads also as int64 arrays.",
          "Finite frame palette kept >= 1e-3 away from half-turn relative rotations (KF1 territory) and from the 1e-6 cut-off; linear maps decided on complete bases.", "DESIGN 4/C12"),
  "C18": ("LX", "exploration",
          "bounded-exhaustive enumeration: all ordered pose pairs/triples of a palette off the origin, all step sizes/counts, every sphere point count, an angle lattice in four operand forms, against independent NumPy relations",
-         "11 poses (|p| up to 10, angles up to pi-1e-3, none through the world origin) -> all pairs/triples for mirror, midpoints, lookAt, planes, metric axioms, gap closing, straight paths, twists; every point count 1..2000 (thorough) for both sphere samplers; 318 angles as scalars/arrays/6-vectors/tm for angle wrapping; chain and numerical Jacobians against analytic ones; frame objects re-posed in place between two uses, pose pairs differing by a pure translation, pairs 4e-7 apart; every IKPath count 2..200 on three pairs; the 15 deprecated entry points against the function their notice names; sphere samplers after the caller scaled a result in place.",
+         "11 poses (|p| up to 10, angles up to pi-1e-3, none through the world origin) -> all pairs/triples for mirror, midpoints, lookAt, planes, metric axioms, gap closing, straight paths, twists; every point count 1..2000 (thorough) for both sphere samplers; 318 angles as scalars/arrays/6-vectors/tm for angle wrapping; chain and numerical Jacobians against analytic ones; frame objects re-posed in place between two uses, pose pairs differing by a pure translation, pairs 4e-7 apart; every IKPath count 2..200 on three pairs; the 15 deprecated entry points against the function their notice names; sphere samplers after the caller scaled a result in place; distance with mixed argument containers.",
          "Finite palettes; closeArcGap direction claimed only for un-rotated origins (the repository's own test pins the other behaviour); helpers outside the statement's list are not checked.", "DESIGN 4/C18"),
  "C06": ("LX", "exploration",
          "bounded-exhaustive enumeration: arms x all structural histories (move / tool change / restore, length <= 2) x joint-vector palette x complete rate and wrench bases; Jacobians compared with Richardson differences of the library's FK and with an independent product-of-exponentials reference",
-         "At each of 43 structurally distinct states per arm (histories of length <= 2 over {move x2, tool change x3 incl. a turn-only one, restore}) and 4-5 joint vectors: space Jacobian = derivative of FK (Richardson, steps 1e-4/2e-4, 1e-6 relative), body / link (every index) / tool-aligned / numerical variants after the change of frame, velocity = J qd, statics = J^T F with power balance on the complete bases, inverse statics where sigma_min >= 0.05, link-weight moments on arms with inertial data; plus every ordered pair of queries on ONE arm object with shared argument objects (query-after-query interference, argument mutation), also with the shared joint vector advanced in place between the two queries; link weights re-evaluated with one link made massless; inverse statics also a few 1e-5 rad beside singular configurations located with the reference Jacobian; 'query, structural change, query again' on one object.",
+         "At each of 43 structurally distinct states per arm (histories of length <= 2 over {move x2, tool change x3 incl. a turn-only one, restore}) and 4-6 joint vectors (one with joint values of a few 1e-5 rad): space Jacobian = derivative of FK (Richardson, steps 1e-4/2e-4, 1e-6 relative), body / link (every index) / tool-aligned / numerical variants after the change of frame, velocity = J qd, statics = J^T F with power balance on the complete bases, inverse statics where sigma_min >= 0.05, link-weight moments on arms with inertial data; plus every ordered pair of queries on ONE arm object with shared argument objects (query-after-query interference, argument mutation), also with the shared joint vector advanced in place between the two queries; link weights re-evaluated with one link made massless; inverse statics also a few 1e-5 rad beside singular configurations located with the reference Jacobian; 'query, structural change, query again' on one object.",
          "Finite palettes of joint vectors and histories of length <= 2; linear maps are decided on complete bases. Link masses/centres are taken from the loaded arm as data.", "DESIGN 4/C06"),
  "C05": ("HX", "model_checking",
          "explicit-state BFS over operation histories of real Arm objects paired with a product-of-exponentials reference model; solver answers are environment answers; from-scratch replay of every state's history",
-         "Per arm (6 quick / 14 thorough: 6R test arm at identity and at a base, bundled URDF arms, generated 1-7 joint chains incl. prismatic) every history of length <= 2 (quick) / <= 4 (thorough) over a 24-operation alphabet {FK x7, IK x6, move x3, a move by micrometres, setArbitraryHome x3, restoreOriginalEE, randomPos x2, the pure queries asked on the live object} is executed (quick depth 2, thorough depth 4); after every transition base pose, reported tool pose, joint state, joint frames and defaulted-argument queries are compared with base*PoE*home.",
+         "Per arm (6 quick / 14 thorough: 6R test arm at identity and at a base, bundled URDF arms, generated 1-7 joint chains incl. prismatic) every history of length <= 2 (quick) / <= 4 (thorough) over a 25-operation alphabet {FK x7, IK x6, move x3, a move by micrometres, a move whose pose object the caller edits afterwards, setArbitraryHome x3, restoreOriginalEE, randomPos x2, the pure queries asked on the live object} is executed (quick depth 2, thorough depth 4); after every transition base pose, reported tool pose, joint state, joint frames and defaulted-argument queries are compared with base*PoE*home.",
          "Depth <= 4 (not the 10 of the quantifier text); finite theta palette; reference built from copies of the construction data (URDF arms from the loaded arm, loader is C13's). KF1 (re-basing of joint frames with near-pi rotations) and KF3 (URDF 'last joint' frame after tool change) are matched narrowly as known findings.", "DESIGN 4/C05"),
  "C20": ("LX", "exploration",
          "bounded-exhaustive enumeration of all array shapes (extent 0..4, rank 0..5) x dtypes x fills x decimals x titles and of object kinds, with numeric fields parsed back from the rendered text",
-         "All 3906 shapes x 3 dtypes x fill patterns x decimals x titles in table mode, all 2-D shapes in LaTeX mode, scalars/strings/None, all nested list/tuple trees to depth 3 over small leaf alphabets, tm/Wrench and lists of them: totality, print == return, and element faithfulness (rank<=4, |x|<9999) decided by an independent parser in exact Decimal arithmetic; two-call histories in a re-loaded display module (primer rendering, then an ordinary one) for every nd.",
+         "All 3906 shapes x 3 dtypes x fill patterns x decimals x titles in table mode, all 2-D shapes in LaTeX mode, scalars/strings/None, all nested list/tuple trees to depth 3 over small leaf alphabets, tm/Wrench and lists of them: totality, print == return, and element faithfulness (rank<=4, |x|<9999) decided by an independent parser in exact Decimal arithmetic (fills include values between half a display unit and one unit for every number of decimals); two-call histories in a re-loaded display module (primer rendering, then an ordinary one) for every nd.",
          "Finite shape/value lattice; content of non-array renderings only checked for totality and print agreement, as the property states.", "DESIGN 4/C20"),
  "C01": ("LX", "exploration",
          "bounded-exhaustive enumeration: complete Cartesian products of branch-boundary palettes (axes x angles x translations, all pose pairs) through the real kernels against an independent NumPy oracle",
